@@ -240,6 +240,18 @@ def class_state_writes(mod: Mod):
                 mutable[n.target.id] = n
         if not mutable:
             continue
+        # attributes that the class's own __init__ rebinds to a fresh object, unconditionally and before it uses them: every instance then has
+        # its own object under that name, and a store through `self.<attr>` in any method goes there (through cls / the class name it does not)
+        shadowed = set()
+        init = mod.funcs.get(cname + ".__init__")
+        if init is not None and init.args.args and init.args.args[0].arg == "self":
+            seen = set()
+            for st in init.body:
+                if isinstance(st, ast.Assign) and len(st.targets) == 1 and isinstance(st.targets[0], ast.Attribute) and isinstance(st.targets[0].value, ast.Name) \
+                        and st.targets[0].value.id == "self" and st.targets[0].attr in mutable and st.targets[0].attr not in seen and is_fresh_expr(st.value) \
+                        and not any(isinstance(x, ast.Attribute) and x.attr == st.targets[0].attr for x in ast.walk(st.value)):
+                    shadowed.add(st.targets[0].attr)
+                seen |= {x.attr for x in ast.walk(st) if isinstance(x, ast.Attribute)}
         for q, f in mod.funcs.items():
             if not q.startswith(cname + "."):
                 continue
@@ -254,6 +266,9 @@ def class_state_writes(mod: Mod):
                 if isinstance(tgt, ast.Attribute) and isinstance(tgt.value, ast.Name) and tgt.value.id in ("self", "cls", cname) \
                         and tgt.attr in mutable and (tgt.attr not in rebound or q.split(".")[-1] != "__init__"):
                     if tgt.attr in rebound and q.endswith("__init__"):
+                        continue
+                    if tgt.attr in shadowed and tgt.value.id == "self" and bool(f.args.args) and f.args.args[0].arg == "self" \
+                            and not any(isinstance(d, ast.Name) and d.id in ("classmethod", "staticmethod") for d in f.decorator_list):
                         continue
                     out.append((q, st, f"class-level mutable attribute {cname}.{tgt.attr}"))
     # an attribute of the CLASS assigned from inside a method - type(self).x = ..., self.__class__.x = ..., cls.x = ..., ClassName.x = ... -
